@@ -6,6 +6,10 @@ pub mod c02;
 pub mod c04;
 pub mod c11;
 pub mod c13;
+pub mod baton_selftest;
+pub mod c17;
+pub mod c18;
+pub mod c19;
 pub mod c20;
 pub mod c21;
 pub mod c22;
@@ -50,6 +54,10 @@ pub fn run(id: &str, run: &mut Run) {
         "C39" => c39::run(run),
         "C33" => c33::run(run),
         "C32" => c32::run(run),
+        "BATON" => baton_selftest::run(run),
+        "C17" => c17::run(run),
+        "C18" => c18::run(run),
+        "C19" => c19::run(run),
         _ => machinery_failure(&format!("no check for property {}", id)),
     }
 }
@@ -79,6 +87,10 @@ pub fn replay(id: &str, case: &Value, run: &mut Run) {
         "C39" => c39::replay(case, run),
         "C33" => c33::replay(case, run),
         "C32" => c32::replay(case, run),
+        "BATON" => baton_selftest::replay(case, run),
+        "C17" => c17::replay(case, run),
+        "C18" => c18::replay(case, run),
+        "C19" => c19::replay(case, run),
         _ => machinery_failure(&format!("no replay for property {}", id)),
     }
 }
